@@ -1,0 +1,36 @@
+//go:build verif
+
+package interpreter
+
+import (
+	"time"
+
+	"github.com/ysugimoto/falco/v2/interpreter/cache"
+	"github.com/ysugimoto/falco/v2/interpreter/value"
+)
+
+// Add-only accessors for the verification harness (build tag verif).
+
+// VerifCache exposes the simulator's object cache.
+func (i *Interpreter) VerifCache() *cache.Cache { return i.cache }
+
+// VerifRateCounters exposes the rate counters that outlive a request.
+func (i *Interpreter) VerifRateCounters() map[string]*value.Ratecounter { return i.rateCounters }
+
+// VerifPenaltyBoxes exposes the penalty boxes that outlive a request.
+func (i *Interpreter) VerifPenaltyBoxes() map[string]*value.Penaltybox { return i.penaltyBoxes }
+
+// VerifAdvanceClock ages every piece of state that outlives a request by d
+// (cache objects, rate counter entries, penalty box expiries), which is what the
+// passage of d of wall-clock time between two requests does to them.
+func (i *Interpreter) VerifAdvanceClock(d time.Duration) {
+	i.lock.Lock()
+	defer i.lock.Unlock()
+	i.cache.VerifAdvance(d)
+	for _, rc := range i.rateCounters {
+		rc.VerifAdvance(d)
+	}
+	for _, pb := range i.penaltyBoxes {
+		pb.VerifAdvance(d)
+	}
+}
